@@ -16,7 +16,7 @@ def prelude(u):
     u.extract(L, 'struct EnumLayout', keep_derives={'Clone', 'Copy'}, pub_fields=True)
     u.extract(L, 'struct StructLayout', keep_derives=set(), pub_fields=True)
     u.shim('layout_tables.rs')
-    u.parts.append(('spec', __file__.replace('unit.py', 'spec.rs')))
+    u.parts.append(('spec', __file__.replace('unit.py', 'defs.rs')))
 
 
 # contracts proved here and relied upon (as stubs) by other units
@@ -47,6 +47,7 @@ def api_stubs(u):
 
 UNIT = u = Unit('layout', ['C17'], 'type layout tables: calc_single, StructLayout::new, padding_needed_for, stride, align_shift')
 prelude(u)
+u.spec('spec.rs')      # the lemmas (other units include the definitions only)
 u.trusted += [
     'LAYOUTS table modelled rely/guarantee: reads return the table content (T1), entries are written once by calc_single under the proved write preconditions (T2), an insert defines the content (T3) -- shims/verus/layout_tables.rs',
     'GetLayoutInfo::{size, align, struct_layout, enum_layout} are table reads and are trusted, not extracted',
